@@ -37,6 +37,7 @@ RULES = {
     "D2": rules_dep.rule_D2,
     "R2": rules_extra.rule_R2,
     "G7": rules_bounds.rule_G7,
+    "Z2": rules_assume.rule_Z2,
 }
 
 SELFTESTS = {"T1": rules_types.selftest_T1}
@@ -85,14 +86,14 @@ PROPS = {
     "C05": {
         "id": "C05",
         "title": "No call corrupts memory or hangs: misuse is reported by exception",
-        "rules": ["G1", "G2", "G3", "G5", "G6", "E1", "A1", "Z1", "D2", "G7"],
+        "rules": ["G1", "G2", "G3", "G5", "G6", "E1", "A1", "Z1", "Z2", "D2", "G7"],
         "clause": "guard completeness (mechanisms 1-3 of the anchors): every plan solve() checks the input length with a live "
                   "check before mixing it with plan tables; every foreign-bound subscript and caller-supplied index in a public "
                   "function is dominated by a live relating guard; slices are range-checked at creation and count-checked at "
                   "assignment; no noexcept function can reach a library throw; beliefs (DSPLIB_ASSUME/assert) of internal helpers "
                   "are entailed by live checks along every call chain from the public entry points (through constructors, "
                   "make_shared and construction-time constant members) where the chain is modelled; no integer division by "
-                  "never-initialised member state; every subscript of a parameter / local vector whose index is affine in "
+                  "never-initialised member state or by a caller-chosen value that no live check keeps away from zero; every subscript of a parameter / local vector whose index is affine in "
                   "counted-loop variables and whose size is fixed by a live check or by construction stays inside the container (G7)",
         "not_decided": "value-range safety of index arithmetic outside the affine fragment of G7 (subscripts of members, of results of "
                        "solve(), indices loaded from data or formed from products of variables), termination and complexity "
